@@ -72,11 +72,24 @@ def catalog(pid, tier):
         q = q + cyc[:2]
         t = t + cyc
     if pid == "C17":
-        q = [inst("int_pair_w2", "pair", 2, 30, opts={"interrupt": True}, witnesses=("interrupted",)),
-             inst("int_indep2_w2", "indep2", 2, 30, opts={"interrupt": True}, witnesses=("interrupted",)),
-             inst("int_indep2_w2_donefirst", "indep2", 2, 30, opts={"interrupt": True, "done_first": True}, witnesses=("interrupted",))]
-        t = q + [inst("int_join3_w2", "join3", 2, 36, opts={"interrupt": True}, witnesses=("interrupted",)),
-                 inst("int_sym2_w2", None, 2, 30, opts={"interrupt": True}, witnesses=("interrupted",), sym=True, N=2)]
+        # Interrupt positions are split in two classes.  "startup" = the coordinator has just started a worker thread and is about to
+        # record it (workers.append): the known finding C17:interrupt-between-thread-start-and-append lives there.  Everything else
+        # must be clean for ALL bits; at the startup positions every bit except the finding's must be clean; the finding's own bit
+        # at exactly those positions is the instance "*_startupleak" (expected counterexample -> KNOWN-FINDING; clean = finding gone).
+        def trio(name, gname, K, extra=None, sym=False, N=None):
+            o = dict({"interrupt": True}, **(extra or {}))
+            a = inst(name, gname, 2, K, opts=dict(o, int_where="not_startup"), witnesses=("interrupted",), sym=sym, N=N)
+            b_ = inst(name + "_startup", gname, 2, K, opts=dict(o, int_where="only_startup"), witnesses=("interrupted",), sym=sym, N=N)
+            leak = ["c07_thread_alive_at_return", "c07_inflight_at_return", "c07_running_after_return"]  # all: "the unrecorded worker is not joined"
+            b_["bits_override"] = [x for x in BITS["C17"] if x not in leak]
+            c = inst(name + "_startupleak", gname, 2, K, opts=dict(o, int_where="only_startup"), witnesses=(), sym=sym, N=N)
+            c["bits_override"] = leak
+            c["finding_key"] = "C17:interrupt-between-thread-start-and-append"
+            return [a, b_, c]
+
+        q = trio("int_pair_w2", "pair", 34) + trio("int_indep2_w2", "indep2", 34)[:1] + trio("int_indep2_w2_donefirst", "indep2", 34, {"done_first": True})[:2]
+        t = (trio("int_pair_w2", "pair", 34) + trio("int_indep2_w2", "indep2", 34) + trio("int_indep2_w2_donefirst", "indep2", 34, {"done_first": True})
+             + trio("int_join3_w2", "join3", 40) + trio("int_sym2_w2", None, 34, sym=True, N=2))
     out = q if tier == "quick" else t
     if pid == "C10":
         for s in out:
@@ -126,7 +139,7 @@ def main(pid):
     specs = catalog(pid, tier)
     for s in specs:
         s["src"] = C.SRC
-        s["bits"] = BITS[pid]
+        s["bits"] = s.pop("bits_override", None) or BITS[pid]
     jobs = int(os.environ.get("VERIF_JOBS", "16"))
     with ThreadPoolExecutor(max_workers=min(jobs, len(specs))) as ex:
         results = list(ex.map(run_instance, specs))
@@ -137,6 +150,7 @@ def main(pid):
     validated = 0
     samples = []
     harness_err = []
+    known_hits = []
     for r in results:
         st = r["status"]
         if st == "ok":
@@ -154,9 +168,10 @@ def main(pid):
             rp = write_replay(pid, r)
             rc, out = run_replay(rp)
             if rc == 10:
-                key = classify_finding(pid, r, out)
+                key = [s for s in specs if s["name"] == r["name"]][0].get("finding_key")
                 if key and key in findings:
-                    C.known_finding(pid, f"{key}: {findings[key].get('what', '')} [instance {r['name']}; replay {rp}]")
+                    C.known_finding(pid, f"{key}: {findings[key].get('what', '')} [instance {r['name']}: bad bits {r['bad']}, observed on real threads {out.get('bad_observed')}; replay {rp}]")
+                    known_hits.append(key)
                 else:
                     C.violation(pid, rp)
                     print(f"  instance {r['name']}: bad bits {r['bad']}; observed on real threads: {out.get('bad_observed')}")
@@ -209,6 +224,7 @@ def main(pid):
     cov["fused_by_lockset"] = results[0].get("fused") if results else None
     cov["bounds"] = [f"{r['name']}: N={r.get('N')} W={r.get('W')} K={r.get('K')} (K checked as completeness threshold by the unwinding query)" for r in results]
     cov["bad_bits_checked"] = BITS[pid]
+    cov["known_findings_hit"] = sorted(set(known_hits))
     cov["exhaustive"] = False
     ev.assumptions = [
         "environment model (conc/encode.py docstring): queue.Queue contract with ANY queued item returned by get, Lock, Thread start/join, "
@@ -231,16 +247,6 @@ def main(pid):
     ev.write()
     print(f"{pid} {tier}: {len(ok_inst)}/{len(results)} instances clean, {nq} queries, solver {solver_s:.0f}s, {validated} schedules replayed on real threads, exit {code}")
     return code
-
-
-def classify_finding(pid, r, out):
-    if pid == "C17":
-        tr = r.get("trace", [])
-        for st in tr:
-            if st.get("thread") == "interrupt":
-                if st.get("line") in range(70, 80):
-                    return "C17:interrupt-during-pool-start"
-    return None
 
 
 def lemma_conditions(pid, tier):
